@@ -16,7 +16,7 @@ Not decided: copy-for-copy consistency inside a chain (C02.R1 / C04.R1), the dip
 
 import collections
 
-from sa.fold import Obj, Raised, Unfoldable
+from sa.fold import Obj, Raised, Rec, Unfoldable
 
 PROPERTY = "C10"
 EXPLANATION = (
@@ -164,11 +164,14 @@ def r7(repo, res):
     n = 0
     for trial in range(60 if thorough() else 12):
         ncn = rnd.randint(1, 3)
-        cns = [Obj(label=f"C{i}", _solution_nice=(lambda i=i: f"C{i}"), position_cn=lambda p: 2, max_cn=lambda: 2, solution={"1": 2}, region_cn=[{}]) for i in range(ncn)]
+        # gene structures are value-equal records (a dataclass in /repo): two candidates may carry equal but separately built ones
+        cns = [Rec(label=f"C{i}", _solution_nice=(lambda i=i: f"C{i}"), position_cn=lambda p: 2, max_cn=lambda: 2, solution={"1": 2}, region_cn=[{}]) for i in range(ncn)]
         rnd.shuffle(cns)
         majors = []
         for j in range(rnd.randint(1, 5)):
             c = rnd.choice(cns)
+            if rnd.random() < 0.4:
+                c = Rec(**dict(c.__dict__))
             majors.append(Obj(label=f"M{j}", score=rnd.choice([0.0, 0.25, 0.5, 1.0, 1.5]), cn_solution=c, added=[],
                               solution={Obj(major=f"{j + 1}"): 2}, _solution_nice=(lambda j=j: f"M{j}")))
         stage = {m.label: [(f"{m.label}{k}", rnd.choice([0.0, 0.1, 0.7])) for k in "ab"[:rnd.randint(0, 2)]] for m in majors}
